@@ -220,6 +220,7 @@ def c17_total(F, R):
         R.bad("coverage", f"only {n} literal-parsing bodies were found")
 
 
+@rule("C13", "C13.f.no-narrowing-casts-on-literals", floor=3)
 @rule("C17", "C17.no-narrowing-casts", floor=3)
 def c17_casts(F, R):
     """every integer cast applied while parsing a literal is same-width or widening (no silent truncation)"""
@@ -628,3 +629,39 @@ def _neg_guard(iff, X, must_return=False):
     oks = [n for n in walk(t, pats=False) if n.get("k") == "Call" and short(callee_of(n) or "") == "Ok"]
     rets = [n for n in walk(t, pats=False) if n.get("k") == "Ret"]
     return bool(errs) and not oks and (bool(rets) or not must_return)
+
+
+@rule("C17", "C17.f.labels-never-look-like-numbers", floor=10)
+def c17_labels(F, R):
+    """an operand that is not a valid number must not be accepted as a label instead (load/store operands try the immediate first, then the label): `LabelString::from_str` rejects every text that starts with a digit, so `lw t0, 4294967296` or `0xfg` stay parse errors on the literal"""
+    from .p_c14 import _char_pred
+    p = F.method("riscv_analysis::parser::label::LabelString", "from_str", trait="FromStr")
+    f = F.fn(p)
+    body = f["hir"]["value"]
+    # `let first = s.chars().next()..;  if <cond(first)> { return Err(()) }`
+    first = None
+    for st in walk(body, pats=False):
+        if st.get("k") == "Let" and st["pat"].get("k") == "PBinding" and st.get("init") and any(m.get("k") == "MethodCall" and m["name"] == "chars" for m in walk(st["init"], pats=False)) \
+                and any(m.get("k") == "MethodCall" and m["name"] == "next" for m in walk(st["init"], pats=False)):
+            first = st["pat"]["name"]
+    if first is None:
+        R.bad("first-char", "UNEXTRACTABLE: LabelString::from_str no longer looks at the first character", f["sp"])
+        return
+    guard = None
+    for n in walk(body, pats=False):
+        if n.get("k") == "If" and any(x.get("k") == "Path" and x.get("res") == first for x in walk(n["cond"], pats=False)) and \
+                any(c.get("k") == "Call" and short(callee_of(c) or "") == "Err" for c in walk(n["then"], pats=False)):
+            guard = n
+    if guard is None:
+        R.bad("first-char", "UNEXTRACTABLE: no `if <test of the first character> { return Err }` in LabelString::from_str", f["sp"])
+        return
+    for d in "0123456789":
+        v = _char_pred(guard["cond"], first, d)
+        if v is True:
+            R.ok(f"first-char|{d}", detail=f"a text starting with {d!r} is rejected as a label")
+        elif v is False:
+            R.bad("first-char|digit", f"LabelString::from_str accepts a name that starts with the digit {d!r}: a numeric literal that Imm::from_str refuses (`4294967296`, `0xfg`, `12ab`) is then taken for a label in `lw t0, <literal>` and the parse error on the literal disappears", loc(guard))
+            break
+        else:
+            R.bad("first-char|unextractable", "UNEXTRACTABLE: cannot evaluate the first-character test of LabelString::from_str", loc(guard))
+            break
